@@ -59,7 +59,7 @@ def build(r, name, n=None, generics=None):
     spec.dname = r.choice([None, None, "Kind%s" % name, "%sTag" % name])
     spec.dvis = r.choice(VIS)
     spec.enum_private = r.random() < 0.4 and spec.dvis not in (None,)
-    spec.vis = "" if spec.enum_private else "pub"
+    spec.vis = "" if spec.enum_private else r.choice(["pub", "pub", "pub(crate)", "pub(super)"])
     spec.dstyle = r.choice([None, "snake_case", "SCREAMING-KEBAB-CASE", "title_case"])
     spec.no_derive = r.random() < 0.15
     spec.dderives = ["strum::EnumIter"] + r.sample(["Hash", "PartialOrd, Ord", "strum::Display", "strum::EnumString", "strum::VariantNames", "strum::AsRefStr", "strum::EnumCount"], r.randint(0, 5))
@@ -108,7 +108,7 @@ def build(r, name, n=None, generics=None):
         spec.extra_enum_attrs = ["#[strum_discriminants(%s)]" % it for it in items]
     else:
         spec.extra_enum_attrs = ["#[strum_discriminants(%s)]" % ", ".join(items)]
-    gen.add_noise(r, spec, skip=("std_default",))
+    gen.add_noise(r, spec, skip=("std_default", "nest"))
     rv = gen.rawify(r, spec, explicit_names=False)
     if rv is not None and spec.variants.index(rv) not in spec.custom and not spec.no_derive:
         i = spec.variants.index(rv)
